@@ -1480,8 +1480,8 @@ class Interp(object):
         return Res(RInt(v, ty), True)
 
     def e_mcall(self, e, frame, hint):
-        recv = self.eval(e['recv'], frame)
         name = e['m']
+        recv = self.eval(e['recv'], frame, hint if name in ('unwrap', 'expect', 'unwrap_or', 'clone', 'abs') else None)
         fn = None
         if isinstance(recv, (SV, EV)):
             try:
